@@ -17,10 +17,15 @@
   5. `Prog.lazy_unobservable_all`: programs over all these operations, with terminal
      observations.
 
-  Hypotheses are clauses of `Arr.validB` (`Lazy.Full`, `a.fermi`), plus for `squeeze`
-  `Lazy.InTables` = `validB` + `ValidP.phaseKeysInTablesB` (sign-table keys lie in the index
-  tables; C01 needs the same hypothesis for `squeeze`, see `C01.squeeze_needs_phase_keys_in_tables`,
-  and `squeeze_needs_keys_in_tables` below shows it is needed here too).
+  Hypotheses are clauses of `Arr.validB` (`Lazy.Full`, `a.fermi`, for `squeeze` also
+  `Lazy.SecInTables`: the stored sectors have their charges in the index tables).  Nothing is
+  assumed about the KEYS of the pending-sign table: since the repair of
+  `FermionicArray._map_blocks` (only the sign entries of stored blocks are re-keyed; former known
+  finding "stale-sign-rekeyed-onto-live-block") an entry left behind by a dropped block is
+  discarded by `squeeze` / `expand_dims` and cannot reach another block:
+  `squeeze_congr_any_phases`, `squeeze_sync_any_phases`, `squeeze_elem_ignores_stale`, regression
+  theorem `squeeze_ignores_stale_key` on the old witness.  The former forms with
+  `Lazy.InTables` (= `validB` + `ValidP.phaseKeysInTablesB`) are kept; they are implied.
 -/
 import SymmModel.Proofs.LazyMore
 import SymmModel.Props.C09
@@ -156,6 +161,35 @@ theorem exceptRel_iff {α : Type} (r : α → α → Prop) (x y : Except Err α)
     ExceptRel r x y ↔ (∃ e, x = .error e ∧ y = .error e) ∨ (∃ u v, x = .ok u ∧ y = .ok v ∧ r u v) := by
   cases x <;> cases y <;> simp [ExceptRel, eq_comm]
 
+/-- **`squeeze` is a congruence for observational equality**: same error, or observationally
+    equal results — with no hypothesis on the keys of the sign tables -/
+theorem squeeze_congr_any_phases {a a' : Arr R} (h : ObsEq a a') (fa : Full a) (fa' : Full a')
+    (hf : a.fermi = true) (hT : SecInTables a) (hT' : SecInTables a') (axis : Option (List Nat)) :
+    ExceptRel ObsEq (a.squeeze axis) (a'.squeeze axis) :=
+  Lazy.squeeze_congr_any_phases h fa fa' hf hT hT' axis
+
+/-- `squeeze` of an array and of its synchronised copy, no hypothesis on the sign-table keys -/
+theorem squeeze_sync_any_phases {a : Arr R} (fa : Full a) (hf : a.fermi = true)
+    (hT : SecInTables a) (axis : Option (List Nat)) :
+    ExceptRel ObsEq (a.squeeze axis) (a.phaseSync.squeeze axis) :=
+  Lazy.squeeze_sync_any_phases fa hf hT axis
+
+/-- every hypothesis of the two theorems above is a consequence of `validB` -/
+theorem secInTables_of_valid {a : Arr R} (hv : a.validB = true) : SecInTables a :=
+  SecInTables.of_valid hv
+
+/-- the same, stated for valid arrays -/
+theorem squeeze_congr_of_valid {a a' : Arr R} (h : ObsEq a a') (hv : a.validB = true)
+    (hv' : a'.validB = true) (hf : a.fermi = true) (axis : Option (List Nat)) :
+    ExceptRel ObsEq (a.squeeze axis) (a'.squeeze axis) :=
+  Lazy.squeeze_congr_any_phases h (Full.of_valid hv hf) (Full.of_valid hv' (h.fermi ▸ hf)) hf
+    (SecInTables.of_valid hv) (SecInTables.of_valid hv') axis
+
+theorem squeeze_sync_of_valid {a : Arr R} (hv : a.validB = true) (hf : a.fermi = true)
+    (axis : Option (List Nat)) : ExceptRel ObsEq (a.squeeze axis) (a.phaseSync.squeeze axis) :=
+  Lazy.squeeze_sync_any_phases (Full.of_valid hv hf) hf (SecInTables.of_valid hv) axis
+
+/-- the former forms, with `InTables` (implied by the `_any_phases` forms) -/
 theorem squeeze_congr {a a' : Arr R} (h : ObsEq a a') (fa : Full a) (fa' : Full a')
     (hf : a.fermi = true) (hT : InTables a) (hT' : InTables a') (axis : Option (List Nat)) :
     ExceptRel ObsEq (a.squeeze axis) (a'.squeeze axis) :=
@@ -167,6 +201,25 @@ theorem squeeze_sync {a : Arr R} (fa : Full a) (hf : a.fermi = true) (hT : InTab
 
 theorem inTables_of_valid {a : Arr R} (hv : a.validB = true)
     (hk : ValidP.phaseKeysInTablesB a = true) : InTables a := InTables.of_valid hv hk
+
+/-- **value view of `squeeze`, any sign table** (the statement behind the former known finding
+    "stale-sign-rekeyed-onto-live-block").  For a valid array — whose sign table may hold entries
+    for sectors without a block, left behind by `multiply_diagonal`, `align_axes`,
+    `drop_missing_blocks` — the squeezed array holds, at the address obtained by dropping the
+    removed coordinates, exactly the value the array held: pending sign of the block itself
+    included, no sign from any other entry. -/
+theorem squeeze_elem_ignores_stale (a : Arr R) (axis : Option (List Nat)) (a' : Arr R)
+    (hv : a.validB = true) (h : a.squeeze axis = .ok a') :
+    ∃ m, DenseP.squeezeMask a axis = .ok m ∧
+      ∀ s shp off, Arr.blockShape? a.indices s = some shp → inBox shp off = true →
+        a'.elem (DenseP.dropMask m s) (DenseP.dropMask m off) = a.elem s off := by
+  obtain ⟨hsh, hnd, _, hab⟩ := C08.hypotheses_of_validB a hv
+  cases hf : a.fermi with
+  | false => exact C08.squeeze_elem a axis a' h (hab hf) hsh hnd
+  | true =>
+    obtain ⟨m, hm, rfl, _⟩ := C08.squeeze_mask_spec a axis a' h
+    exact ⟨m, hm, fun s shp off hs ho =>
+      squeezed_elem_any_phases hm hf (Full.of_valid hv hf) (SecInTables.of_valid hv) hsh s shp off hs ho⟩
 
 theorem expandDims_congr {a a' : Arr R} (h : ObsEq a a') (fa : Full a) (fa' : Full a')
     (hf : a.fermi = true) (axis : Nat) (c : Option Charge) (dual : Option Bool) :
@@ -247,7 +300,7 @@ theorem Op2.congr_obsEq (op : Op2 R) {a a' : Arr R} (h : ObsEq a a') (sa : StOk 
     transpose) and `squeeze`, `expand_dims`, `multiply_diagonal`, `fuse`, `unfuse`, `tensordot`
     with a fixed partner on either side.  If every state of the lazy run and of the eager run
     (`phase_sync()` after every step) satisfies the state invariant `StOk` (clauses of validity —
-    property C01 — plus `phaseKeysInTablesB`) and the guards hold, then both runs end with the
+    property C01; nothing about the keys of the sign table) and the guards hold, then both runs end with the
     same error or with observationally equal arrays; and every terminal observation computed from
     the synchronised final array (`sum`, `max`, `abs`, `clip`, `to_dense`, `norm`, `eigh`,
     `solve`, singular values, …) is identical. -/
@@ -285,10 +338,10 @@ def exS : Arr Int :=
     phases := [([(1, 0), (0, 0), (0, 0)], -1)],
     oddpos := [(7, false)] }
 
-theorem exS_stOk : StOk exS := StOk.of_valid (by decide) rfl (by decide)
+theorem exS_stOk : StOk exS := StOk.of_valid_any_phases (by decide) rfl
 
 example : ExceptRel ObsEq (exS.squeeze none) (exS.phaseSync.squeeze none) :=
-  squeeze_sync exS_stOk.full rfl exS_stOk.tables none
+  squeeze_sync_any_phases exS_stOk.full rfl exS_stOk.tables none
 
 /-- concretely: the sign stays pending on the squeezed lazy copy and the values agree -/
 example :
@@ -299,16 +352,34 @@ example :
       | .ok r => (r.elem [(1, 0), (0, 0)] [1, 0], r.phases) | .error _ => (0, []))
       = (4, []) := by decide +kernel
 
-/-- **`InTables` is needed for `squeeze`**: a valid array with a stale sign-table key whose charge
-    on the removed axis is outside the index table; squeezing maps the key onto a stored sector
-    and flips it on the lazy copy only -/
-theorem squeeze_needs_keys_in_tables :
-    let y : Arr Int := { exS with phases := [([(1, 0), (2, 0), (0, 0)], -1)] }
-    y.validB = true ∧ ValidP.phaseKeysInTablesB y = false
-    ∧ (match y.squeeze none with
-        | .ok r => r.elem [(1, 0), (0, 0)] [1, 0] | .error _ => 0) = 4
-    ∧ (match y.phaseSync.squeeze none with
+/-- the witness of the former known finding "stale-sign-rekeyed-onto-live-block": `exS` with its
+    sign entry replaced by a STALE one — no block is stored for `[(1,0),(2,0),(0,0)]` and the
+    charge on the removed axis is outside the index table; the unrepaired `squeeze` re-keyed it
+    onto the stored sector `[(1,0),(0,0)]` -/
+def exStaleS : Arr Int := { exS with phases := [([(1, 0), (2, 0), (0, 0)], -1)] }
+
+/-- **regression** (replaces `squeeze_needs_keys_in_tables`): on the old witness — valid, sign
+    table key outside the tables — the squeezed lazy copy and the squeezed synchronised copy now
+    hold the same value (`-4`, the stored number: no sign is pending on that block), the stale
+    entry is gone and the result is valid -/
+theorem squeeze_ignores_stale_key :
+    exStaleS.validB = true ∧ ValidP.phaseKeysInTablesB exStaleS = false
+    ∧ exStaleS.elem [(1, 0), (0, 0), (0, 0)] [1, 0, 0] = -4
+    ∧ (match exStaleS.squeeze none with
+        | .ok r => (r.elem [(1, 0), (0, 0)] [1, 0], r.phases, r.validB) | .error _ => (0, [], false))
+        = (-4, [], true)
+    ∧ (match exStaleS.phaseSync.squeeze none with
         | .ok r => r.elem [(1, 0), (0, 0)] [1, 0] | .error _ => 0) = -4 := by decide +kernel
+
+/-- the general theorems apply to the witness: its only hypothesis is validity -/
+example : ExceptRel ObsEq (exStaleS.squeeze none) (exStaleS.phaseSync.squeeze none) :=
+  squeeze_sync_of_valid (by decide) rfl none
+
+example : ∀ r, exStaleS.squeeze none = .ok r →
+    ∃ m, DenseP.squeezeMask exStaleS none = .ok m ∧
+      ∀ s shp off, Arr.blockShape? exStaleS.indices s = some shp → inBox shp off = true →
+        r.elem (DenseP.dropMask m s) (DenseP.dropMask m off) = exStaleS.elem s off :=
+  fun r h => squeeze_elem_ignores_stale exStaleS none r (by decide) h
 
 /-- a program over the extended language: expand, flip, multiply by a diagonal, conjugate -/
 example :
